@@ -252,6 +252,56 @@ class _SnapCut(ast.NodeTransformer):
         return node
 
 
+class _IfConvert(ast.NodeTransformer):
+    """`if almost_equal(X, K): X = C`  ->  `X = __sx_ite__(lambda: almost_equal(X, K), lambda: C, X)`
+
+    If-conversion of a side-effect-free conditional assignment: with a symbolic
+    condition the new value is the term ite(cond, C, X) (no fork); with a
+    concrete condition it behaves exactly like the original statement."""
+
+    def __init__(self):
+        self.count = 0
+
+    def visit_If(self, node):
+        self.generic_visit(node)
+        if (
+            not node.orelse
+            and len(node.body) == 1
+            and isinstance(node.body[0], ast.Assign)
+            and len(node.body[0].targets) == 1
+            and isinstance(node.body[0].targets[0], ast.Name)
+            and isinstance(node.body[0].value, ast.Constant)
+            and isinstance(node.test, ast.Call)
+            and isinstance(node.test.func, ast.Name)
+            and node.test.func.id == "almost_equal"
+        ):
+            name = node.body[0].targets[0].id
+            self.count += 1
+            lam = lambda body: ast.Lambda(
+                args=ast.arguments(posonlyargs=[], args=[], kwonlyargs=[], kw_defaults=[], defaults=[]),
+                body=body,
+            )
+            new = ast.Assign(
+                targets=[ast.Name(id=name, ctx=ast.Store())],
+                value=ast.Call(
+                    func=ast.Name(id="__sx_ite__", ctx=ast.Load()),
+                    args=[lam(node.test), lam(node.body[0].value), ast.Name(id=name, ctx=ast.Load())],
+                    keywords=[],
+                ),
+            )
+            return ast.copy_location(new, node)
+        return node
+
+
+def _sx_ite(cond_thunk, then_thunk, old):
+    from .values import SymBool, sym_ite
+
+    c = cond_thunk()
+    if isinstance(c, SymBool):
+        return sym_ite(c.t, then_thunk(), old)
+    return then_thunk() if c else old
+
+
 def _sx_snap(thunk, a, b):
     ctx = C.CUR
     if ctx is None or not ctx.opts.get("snap_cut"):
@@ -281,6 +331,7 @@ class Mods:
         self._mods = {}
         self.ast_rewrites = 0
         self.snap_sites = 0
+        self.ifconv_sites = 0
         self.stubs = []
         self.sources = {}
 
@@ -342,6 +393,7 @@ def load(*, fake_skia=True, lex_placeholders=True, modules=MODULE_ORDER, extra_a
             "frozenset": SxFrozenSet,
             "__sx_set__": _sx_set,
             "__sx_snap__": _sx_snap,
+            "__sx_ite__": _sx_ite,
             "__import__": sx_import,
         }
     )
@@ -357,6 +409,9 @@ def load(*, fake_skia=True, lex_placeholders=True, modules=MODULE_ORDER, extra_a
         sc = _SnapCut()
         tree = sc.visit(tree)
         mods.snap_sites += sc.count
+        ic = _IfConvert()
+        tree = ic.visit(tree)
+        mods.ifconv_sites += ic.count
         if extra_ast is not None:
             tree = extra_ast(name, tree) or tree
         ast.fix_missing_locations(tree)
@@ -391,6 +446,10 @@ def load(*, fake_skia=True, lex_placeholders=True, modules=MODULE_ORDER, extra_a
         spi._FLOAT_RE = new
         mods.stubs.append(
             "svg_path_iter._FLOAT_RE |= placeholder token (number lexing is C10's subject)"
+        )
+    if mods.ifconv_sites:
+        mods.stubs.append(
+            f"if-conversion of {mods.ifconv_sites} `if almost_equal(x,k): x = c` statements into ite terms (no fork, same semantics)"
         )
     mods.stubs.append(
         "builtins float/int/min/max/isinstance/set/frozenset/__import__(math->sx.symmath) replaced; "
